@@ -36,7 +36,8 @@ EvSrc(e) == CASE e.a = "call"   -> "x" \o Open(e.k) \o e.l \o "]"
               [] OTHER          -> "[Not cited][#" \o e.l \o "]"
 Defs(d) == (IF d.nested THEN "[^a]: note a calls z[^c] inside\n\n" ELSE "[^a]: note a\n\n") \o "[^b]: note b\n\n[^c]: note c\n\n[#a]: cite a\n\n[#b]: cite b\n\n[#c]: cite c\n\n[?a]: gloss a\n\n[?b]: gloss b\n\n[?c]: gloss c\n\n"
 Wrap(d, s) == CASE d.nest = "list" -> "* " \o s \o "\n\n" [] d.nest = "quote" -> "> " \o s \o "\n\n" [] OTHER -> s \o "\n\n"
-Src(d) == (IF d.toc THEN (IF d.tocr THEN "{{TOC:2-3}}\n\n" ELSE "{{TOC}}\n\n") ELSE "")
+\* base = 2: the document starts with 'Base Header Level: 2' (ids, numbering and links do not depend on heading levels)
+Src(d) == (IF d.base > 0 THEN "Base Header Level: " \o ToString(d.base) \o "\n\n" ELSE "") \o (IF d.toc THEN (IF d.tocr THEN "{{TOC:2-3}}\n\n" ELSE "{{TOC}}\n\n") ELSE "")
           \o Wrap(d, Cat([i \in 1 .. Len(d.ev) |-> EvSrc(d.ev[i]) \o " "]) \o Cat([i \in 1 .. Len(d.heads) |-> IF d.heads[i].ref THEN RefSrc(d.heads[i]) \o " " ELSE ""]) \o (IF d.table THEN "[tbl]" ELSE "") \o "end")
           \o Cat([i \in 1 .. Len(d.heads) |-> HeadSrc(d.heads[i], IF i = 1 THEN 1 ELSE 2) \o "text\n\n"])
           \o (IF d.table THEN "| a |\n|---|\n| b |\n[Cap][tbl]\n\n" ELSE "")
@@ -71,8 +72,9 @@ Xrefs(d) == LET idx == {i \in 1 .. Len(d.heads) : d.heads[i].ref} IN
 VARIABLE doc
 Pick(S) == IF Sim THEN {RandomElement(S)} ELSE S
 Events == {[a |-> "call", k |-> k, l |-> l] : k \in Kinds, l \in Labels} \cup {[a |-> "inline", k |-> "fn", l |-> l] : l \in {"a", "b"}} \cup {[a |-> "notcited", k |-> "cn", l |-> l] : l \in Labels}
-Init == doc \in {[ev |-> <<>>, heads |-> <<>>, toc |-> t, tocr |-> tr, table |-> tb, nest |-> n, nested |-> ns] :
-                    t \in Pick(BOOLEAN), tr \in Pick(BOOLEAN), tb \in Pick(BOOLEAN), n \in Pick({"plain", "list", "quote"}), ns \in Pick(BOOLEAN)}
+Init == doc \in {[ev |-> <<>>, heads |-> <<>>, toc |-> t, tocr |-> tr, table |-> tb, nest |-> n, nested |-> ns, base |-> b] :
+                    t \in Pick(BOOLEAN), tr \in Pick(BOOLEAN), tb \in Pick(BOOLEAN), n \in Pick({"plain", "list", "quote"}), ns \in Pick(BOOLEAN), b \in Pick({0, 2})}
+        /\ (doc.base > 0 => ~doc.tocr)            \* which levels a restricted TOC means under a shifted base level is not prescribed
 AddEv == Len(doc.ev) < MaxEv /\ doc.heads = <<>> /\ \E e \in Pick(Events) :
             /\ (e.a = "inline" => \A i \in 1 .. Len(doc.ev) : ~(doc.ev[i].a = "inline" /\ doc.ev[i].l = e.l))        \* inline note texts are distinct
             /\ (e.a = "notcited" => \A i \in 1 .. Len(doc.ev) : ~(doc.ev[i].k = "cn" /\ doc.ev[i].l = e.l))           \* a key is either cited or listed as not cited
